@@ -177,6 +177,12 @@ def record_one(spec):
     beh.append({"e": "C", "spell": spec.get("spell", "?"), "large": large, "valid": True, "text": list(t_rgb),
                 "bg": list(b_rgb), "raised": "", "readable": readable, "comp": spec.get("comp") or {"kind": "none"},
                 "cssOverride": css_override})
+    # a history of other calls in the same process before this pair's runs (not recorded: what matters is that they happened)
+    for (pt, pb, plg, pm, pvr) in spec.get("prelude", []):
+        try:
+            ColorPair(tuple(pt), tuple(pb), plg).make_readable(mode=pm, very_readable=pvr)
+        except Exception:
+            pass
     wit_cache = {}
     for run in spec.get("runs", ALL_RUNS):
         mode, vr = run[0], run[1]
@@ -486,6 +492,28 @@ def hairline_results(rnd, nscan):
         t, b = near_threshold(rnd, rnd.choice((3.0, 4.5, 7.0)), (0.02, 0.35))
         jobs.append((t, b, large, vr, 0 if k % 3 else 1))
     return [j for j in vlib.pool_map(_scan_hairline, jobs, chunksize=16) if j]
+
+
+def _scan_fallback(job):
+    """(text, bg, large, vr) -> the job if mode 1 gives up and mode 2 succeeds (the relaxed strategy's fallback options decide);
+    used only to SELECT the calls that make up a history"""
+    vlib.use_repo()
+    from cm_colors import ColorPair
+    t, b, large, vr = job
+    try:
+        _v1, ok1 = ColorPair(t, b, large).make_readable(mode=1, very_readable=vr)
+        _v2, ok2 = ColorPair(t, b, large).make_readable(mode=2, very_readable=vr)
+    except Exception:
+        return None
+    return job if (not ok1 and ok2) else None
+
+
+def fallback_pairs(rnd, nscan):
+    jobs = []
+    for k in range(nscan):
+        t, b = near_background(rnd) if k % 2 else near_threshold(rnd, rnd.choice((4.5, 7.0)), (0.45, 0.75))
+        jobs.append((t, b, bool(k & 2), bool(k & 4)))
+    return [j for j in vlib.pool_map(_scan_fallback, jobs, chunksize=8) if j]
 
 
 def extreme_only(rnd, tries=20000):
